@@ -118,9 +118,17 @@ pub mod p{idx} {{
     {tdef}
     {msg_def}
     pub struct Fence;
+    pub struct Quiet;
+    pub struct Loud;
 
     #[message_handlers]
     impl{gens} {tname} {where} {{
+        // neighbours of the handler under test: their options must not influence it, nor its options them
+        #[handler(no_log)]
+        async fn on_quiet(&mut self, _msg: Quiet, _: &ActorRef<Self>) -> Result<u32, String> {{
+            Err("quiet".to_string())
+        }}
+
         {ATTR_SRC[attr]}
         async fn on_m(&mut self, msg: {msg_ty}, _: &ActorRef<Self>){arrow} {{
             let flag = {flag_expr};
@@ -130,6 +138,11 @@ pub mod p{idx} {{
         #[handler]
         async fn on_fence(&mut self, _msg: Fence, _: &ActorRef<Self>) -> u8 {{
             0
+        }}
+
+        #[handler]
+        async fn on_loud(&mut self, _msg: Loud, _: &ActorRef<Self>) -> Result<u32, String> {{
+            Err("loud".to_string())
         }}
 {extra}    }}
 
@@ -155,10 +168,18 @@ pub mod p{idx} {{
                 }};
                 let _ = r.ask(Fence).await.expect("fence");
                 let logs = crate::take_logs();
+                // the neighbours: a no_log Result handler stays silent, a plain Result handler logs once
+                r.tell(Quiet).await.expect("tell quiet");
+                let _ = r.ask(Fence).await.expect("fence");
+                let quiet_logs = crate::take_logs().len();
+                r.tell(Loud).await.expect("tell loud");
+                let _ = r.ask(Fence).await.expect("fence");
+                let loud_logs = crate::take_logs().iter().filter(|l| l.contains("loud")).count();
+                let neighbours_ok = quiet_logs == 0 && loud_logs == 1;
                 r.stop().await.expect("stop");
                 let res = jh.await.expect("join");
                 let completed = res.is_completed();
-                let state_ok = res.into_actor() == Some(args);
+                let state_ok = res.into_actor() == Some(args) && neighbours_ok;
                 out.push(crate::Obs {{ prog: {idx}, path: path.to_string(), flag, reply, logs, ident: format!("{{}}", r.identity()), msg_type: std::any::type_name::<{msg_ty}>().to_string(), completed, state_ok }});
             }}
         }}
